@@ -149,7 +149,7 @@ def run(ctx):
         # tie: every stored level solves the MODEL's step system built from the previous stored level (relative residual at
         # rounding level), and the fields agree grossly.  A tight field comparison is not a sound oracle: for tables whose
         # diffusivity spans many decades the step matrix is ill-conditioned and two accurate solvers differ by cond x eps.
-        if not (resid <= 1e-9 and d_mi <= 1e-9 and d_field <= 1e-3):
+        if not (resid <= rescorr.resid_tol(cases[k], impls[k]) and d_mi <= 1e-9 and d_field <= 1e-3):
             ctx.violations.append(dict(what="implementation's stored levels are not the model's implicit updates (the model for which the bounds are proved)",
                                        key="corr", input=rescorr.replay_payload(cases[k]),
                                        observed=dict(max_relative_step_residual=resid, max_abs_diff_field=d_field, diff_m_i=d_mi)))
